@@ -19,28 +19,34 @@ class Undefined(Exception):
     """the statement defines no value (division by a calendar that is 0 on that date)"""
 
 
-def build(ast):
+def build(ast, keep=None):
+    """keep: optional list that receives the mutable containers handed to the constructors (the caller's own objects)"""
     k = ast[0]
+
+    def mine(c):
+        if keep is not None:
+            keep.append(c)
+        return c
     if k == 'never':   # zero capacity on every day (C14 class "resource never becomes available")
         return {'weekly-empty': lambda: WeeklyCalendar(days=[], units_per_day=8),
                 'fixed-zero': lambda: FixedCalendar(0),
                 'direct-empty': lambda: DirectCalendar()}[ast[1]]()
     if k == 'weekly':
         a = ast[1]
-        return WeeklyCalendar(start=a.get('start'), end=a.get('end'), days=list(a['days']), units_per_day=a['units'])
+        return WeeklyCalendar(start=a.get('start'), end=a.get('end'), days=mine(list(a['days'])), units_per_day=a['units'])
     if k == 'weeklyd':
         a = ast[1]
-        return WeeklyCalendar(start=a.get('start'), end=a.get('end'), units_per_day={int(k_): v for k_, v in a['map'].items()})
+        return WeeklyCalendar(start=a.get('start'), end=a.get('end'), units_per_day=mine({int(k_): v for k_, v in a['map'].items()}))
     if k == 'direct':
-        c = DirectCalendar({d: u for d, u in ast[1]})
+        c = DirectCalendar(mine({d: u for d, u in ast[1]}))
         if len(ast) > 2 and ast[2]:
-            c.set_units({d: u for d, u in ast[2]})
+            c.set_units(mine({d: u for d, u in ast[2]}))
         return c
     if k == 'fixed':
         return FixedCalendar(ast[1], ast[2], ast[3])
     if k == 'num':
         return ast[1]
-    a, b = build(ast[1]), build(ast[2])
+    a, b = build(ast[1], keep), build(ast[2], keep)
     if k == 'add':
         return a + b
     if k == 'sub':
